@@ -82,7 +82,7 @@ def enc_unknown(num, wt, payload):
 
 
 UNKNOWN = [enc_unknown(900, 0, 150), enc_unknown(901, 1, b"\x01\x02\x03\x04\x05\x06\x07\x08"), enc_unknown(31, 2, b"ab"),
-           enc_unknown(903, 5, b"\xff\x00\xff\x00"), enc_unknown(200000, 2, b"")]
+           enc_unknown(903, 5, b"\xff\x00\xff\x00"), enc_unknown(2**29 - 1, 2, b"")]      # (the largest legal field number, empty payload)
 
 
 def pool(ctx, quick):
